@@ -64,6 +64,11 @@ def make_case(i):
     q.append(('get_labels', 1, -1, fltag, 1, 'labels_filtered'))
     q.append(('get_flexpaths', rnd.choice([0, 1]), -1, None, 1, 'fpaths'))
     q.append(('get_robustpaths', rnd.choice([0, 1]), -1, None, 1, 'rpaths'))
+    # tag-filtered path queries: only the elements carrying the tag come back (copied field by field in the library)
+    for key, op_ in (('fpaths', 'get_flexpaths'), ('rpaths', 'get_robustpaths')):
+        ptags = sorted(set(tuple(e['tag']) for cell in lib['cells'] for p in cell[key] for e in p['elements']))
+        if ptags:
+            q.append((op_, rnd.choice([0, 1]), -1, rnd.choice(ptags), 1, key + '_filtered'))
     for op, ap, d, tg, inc, lab in q:
         c.op(op, T, ap, d, tg[0] if tg else '-', tg[1] if tg else '-', inc, lab)
     # a query through a reference of the top cell (references answer the same queries)
@@ -176,6 +181,9 @@ def judge(chk, c, evs):
         else:
             kind_key, kind = ('fpaths', 'f') if op == 'get_flexpaths' else ('rpaths', 'r')
             exp = flat.flatten_polys(lib, top, d, outl, paths_only=only_paths(kind_key, kind))
+            if tg:
+                exp = [(t_, pts) for t_, pts in exp if tuple(t_) == tuple(tg)]
+                chk.cov('path_queries_filtered')
             got = []
             for pth in e['paths']:
                 rep = flat.rep_from_dump(pth.get('rep'))
